@@ -641,6 +641,17 @@ def line_bookkeeping(prop, a_shapes, tool, res):
         else:
             res['discharged'] += 1
             res['samples'].append({'obligation': 'C16.source_map_entry_is_own_line', 'verdict': 'holds for all %d accepted opcode / print shapes' % n})
+    if prop == 'C16':
+        # instructions generated by a macro use are attributed to the use site (outermost use for nested macros)
+        res['obligations'] += 1
+        src = 'MACRO mq(a) -> inc a <- MACRO mz(b) -> mq(b) <- hlt mz(bx)'
+        r = tool.ask('A', src)
+        want = str(src.index('mz(bx)'))
+        if r[0] == 'OK' and len(r) > 3 and r[3].split(',')[-1] == want and r[1].split('\x1f')[-1].strip() == 'inc bx':
+            res['discharged'] += 1
+            res['samples'].append({'obligation': 'C16.macro_generated_instruction_cites_use_site', 'verdict': 'observed: %s -> position %s' % (src, want)})
+        else:
+            res['violations'].append({'obligation': 'C16.macro_generated_instruction_cites_use_site', 'source_line': src, 'detail': 'assembler answered %s, expected position %s' % (r[:4], want)})
     # nop emits nothing (and is documented): observed
     r = tool.ask('A', 'nop')
     res['notes'].append({'nop': r[:3]})
